@@ -337,6 +337,155 @@ fn c03_seq_eq_check(_ctx: &Ctx, c: &SeqCase) -> Report {
   rep
 }
 
+/// switch_on_next(target): the source is mirrored until the target's first item, from then
+/// on the target is. Only histories whose outcome does not depend on how an implementation
+/// orders its bookkeeping are generated (both inputs hot; the source does not end after
+/// the switch, the target does not end before its first item), and the expected trace is
+/// computed directly from the history.
+fn c03_switch_strategy(_ctx: &Ctx) -> BoxedStrategy<SeqCase> {
+  let maps = || prop::collection::vec((1i64..4).prop_map(|k| Op::Map(MapF::Add(k))), 0..=1);
+  (
+    0usize..=3,
+    prop::option::weighted(0.2, 1u32..4),
+    prop::collection::vec(any::<bool>(), 0..=5),
+    0u8..3,
+    prop::collection::vec(any::<bool>(), 0..=2),
+    (maps(), maps(), maps()),
+    0u64..4,
+  )
+    .prop_map(|(before, src_err, after, ending, tail, (m0, m1, m2), hash_seed)| {
+      let mut actions = vec![Action::Subscribe(0)];
+      let mut v = 10i64;
+      let mut next = |hot: usize, actions: &mut Vec<Action>| {
+        v += 1;
+        actions.push(Action::Emit(hot, Ev::N(v)));
+      };
+      for _ in 0..before {
+        next(0, &mut actions);
+      }
+      if let Some(c) = src_err {
+        actions.push(Action::Emit(0, Ev::E(c)));
+      } else {
+        next(1, &mut actions); // the switch
+        for from_target in after {
+          next(if from_target { 1 } else { 0 }, &mut actions);
+        }
+        match ending {
+          0 => actions.push(Action::Emit(1, Ev::C)),
+          1 => actions.push(Action::Emit(1, Ev::E(5))),
+          _ => {}
+        }
+        if ending < 2 {
+          // the source goes on after the output has ended
+          for _ in tail {
+            next(0, &mut actions);
+          }
+        }
+      }
+      let wrap = |mut n: Node, ops: Vec<Op>| {
+        for op in ops {
+          n = Node::Un(op, Box::new(n));
+        }
+        n
+      };
+      let a = wrap(Node::Src(0, Src::Hot(0)), m0);
+      let b = wrap(Node::Src(0, Src::Hot(1)), m1);
+      let mut root = wrap(Node::Gate(Gate::SwitchOnNext, Box::new(a), Box::new(b)), m2);
+      root.renumber();
+      SeqCase {
+        case: Case {
+          root,
+          hots: vec![HotKind::Harness, HotKind::Harness],
+          hot_illformed: false,
+          conn: None,
+          conn_take: None,
+          recorders: vec![vec![]],
+          actions,
+        },
+        hash_seed,
+      }
+    })
+    .boxed()
+}
+
+fn c03_switch_check(_ctx: &Ctx, c: &SeqCase) -> Report {
+  let mut rep = Report::ok();
+  rep.classes = op_classes(&c.case);
+  let cfg = arx_rt::Config {
+    schedule: arx_rt::Schedule { hash_seed: c.hash_seed, ..Default::default() },
+    max_steps: 60_000,
+    fuel: 60_000,
+  };
+  let r = run_case(&c.case, cfg, RunOpts { sentinel: false, ..RunOpts::default() });
+  rep.sample = Some(render(c, &r));
+  if !matches!(r.outcome.kind, arx_rt::Kind::Done | arx_rt::Kind::Quiescent) {
+    rep.fail = Some(format!("the run did not end normally ({:?}) | {}", r.outcome.kind, render(c, &r)));
+    return rep;
+  }
+  // expected trace, straight from the history
+  fn adds(n: &Node) -> i64 {
+    match n {
+      Node::Un(Op::Map(MapF::Add(k)), x) => *k + adds(x),
+      _ => 0,
+    }
+  }
+  let (ka, kb, kroot) = {
+    let mut n = &c.case.root;
+    let mut kroot = 0;
+    while let Node::Un(Op::Map(MapF::Add(k)), x) = n {
+      kroot += *k;
+      n = x;
+    }
+    match n {
+      Node::Gate(Gate::SwitchOnNext, a, b) => (adds(a), adds(b), kroot),
+      _ => return rep,
+    }
+  };
+  let mut expected: Vec<Rk> = Vec::new();
+  let (mut switched, mut ended, mut ignored_after_switch) = (false, false, 0);
+  for a in &c.case.actions {
+    if let Action::Emit(h, ev) = a {
+      if ended {
+        continue;
+      }
+      match (h, ev) {
+        (0, Ev::N(v)) if !switched => expected.push(Rk::N(crate::val::P::I(v + ka + kroot))),
+        (0, Ev::N(_)) => ignored_after_switch += 1,
+        (1, Ev::N(v)) => {
+          switched = true;
+          expected.push(Rk::N(crate::val::P::I(v + kb + kroot)));
+        }
+        (_, Ev::E(code)) => {
+          expected.push(Rk::E(*code));
+          ended = true;
+        }
+        (1, Ev::C) => {
+          expected.push(Rk::C);
+          ended = true;
+        }
+        _ => {}
+      }
+    }
+  }
+  if switched {
+    rep.classes.push("switched".into());
+  }
+  if ignored_after_switch > 0 {
+    rep.classes.push("source-item-after-the-switch".into());
+  }
+  rep.nontrivial = switched;
+  let got = r.trace(0);
+  if got != expected {
+    rep.fail = Some(format!(
+      "switch_on_next delivered {} where the history defines {} | {}",
+      show_trace(&got),
+      show_trace(&expected),
+      render(c, &r)
+    ));
+  }
+  rep
+}
+
 /// ready_set_go: the action emits into a hot source that the inner pipeline listens to;
 /// nothing the action emits may be missed
 fn c03_rsg_strategy(ctx: &Ctx) -> BoxedStrategy<SeqCase> {
@@ -684,12 +833,13 @@ pub fn properties() -> Vec<Property> {
     },
     Property {
       id: "C03",
-      rule: "cases = pipelines with merge / concat / zip / combine_latest / amb / take_until / skip_until / sample / flat_map nested with single-source operators over 0..3 hot sources (scripts interleaved by a generated order) and cold sources; oracle = exact trace equality with the reference; non-trivial = a combining operator is present and the driver order switches hot source at least once or hot and cold inputs are mixed",
+      rule: "cases = pipelines with merge / concat / zip / combine_latest / amb / take_until / skip_until / sample / flat_map nested with single-source operators over 0..3 hot sources (scripts interleaved by a generated order) and cold sources; oracle = exact trace equality with the reference; non-trivial = a combining operator is present and the driver order switches hot source at least once or hot and cold inputs are mixed; switch_on_next: two hot inputs, histories whose outcome no bookkeeping order can change (source items, the target's first item, a mix of both, the target's terminal), expected trace computed from the history",
       assumptions: vec!["inputs are subscribed left to right, triggers first (as the crate does)", "trigger errors / completions have no effect (RxJS reading)"],
       subs: vec![
         mk_sub("combine", (1500, 30_000), |ctx| seq_strategy(c03_cfg(ctx)), c03_check),
         mk_sub("sequence_equal", (500, 10_000), c03_seq_eq_strategy, c03_seq_eq_check),
         mk_sub("ready_set_go", (300, 5_000), c03_rsg_strategy, c03_rsg_check),
+        mk_sub("switch_on_next", (300, 5_000), c03_switch_strategy, c03_switch_check),
       ],
     },
     Property {
